@@ -364,6 +364,10 @@ End ==
                THEN Add(Settled, "NoHalfHandled", "at end")
                     \cup Add(StoredIsLastAcked, "StoredIsLastAcked", "at end")
                     \cup Add(TornDown, "TornDownOnce", "at end")
+                    \* ... also a record that reached a destination only AFTER its source was torn down (the rule at the
+                    \* Teardown event cannot see it) was never acknowledged before that teardown
+                    \cup UNION {Add(\A k \in 1..Len(st.wr[d]) : st.wr[d][k][2] \in Rng(st.acked[st.wr[d][k][1]]),
+                                    "AckedBeforeTeardown", <<"written but never acknowledged", d>>) : d \in st.dsts}
                ELSE {})
 
 Hang  == IsEvent("Hang")  /\ viol' = viol \cup {V("NoHang", Ev.call)} /\ UNCHANGED st
